@@ -3,7 +3,8 @@
 patch applies, the 68-test suite passes with the change, the demo fails with it and passes without it.
 usage: tools/reconfirm.py [names…]   (default: all).  Updates meta.json["reconfirmed"]. Removes the worktree at the end."""
 import json, os, subprocess, sys, glob, shutil
-SCR = "/tmp/reconfirm"; WT = SCR + "/wt"
+SLOT = os.environ.get("RECONFIRM_SLOT", "")
+SCR = "/tmp/reconfirm" + SLOT; WT = SCR + "/wt"
 def sh(cmd, cwd, env=None, timeout=3600):
     e = dict(os.environ); e.update({"CARGO_NET_OFFLINE": "true"}); e.update(env or {})
     p = subprocess.run(cmd, cwd=cwd, env=e, shell=True, stdout=subprocess.PIPE, stderr=subprocess.STDOUT, text=True, timeout=timeout)
